@@ -12,8 +12,11 @@
 //!   "imaA":[offsets at which is_mapped_address is sampled after every call]}
 //!  {"ev":"Op","d":depth,"k":"Q"|"E"|"K","start":..,"len":..,"vm":[chunks mapped by the driver
 //!   itself before a K call],"ok":bool,"err":"..","st":[state of every chunk],
-//!   "ima":[is_mapped_address of each sample offset],"rw":[read/write probe of every chunk]}
+//!   "ima":[is_mapped_address of each sample offset],"rw":[1 = the chunk is recorded as Mapped and its first and last
+//!   word could be read and written (kernel-checked access, then a real store and load)]}
 //!  {"ev":"Crash",...} when the code under test panicked.
+//!  {"ev":"VmMapFailed","c":chunk,..} when the driver could not map a chunk recorded as Unmapped
+//!   (MAP_FIXED_NOREPLACE found an existing mapping in the window nobody else uses).
 //! `d` = k > 0: the row is the k-th call of a history whose first k-1 calls are the most recent
 //! rows with d = 1..k-1 (depth-first enumeration: the driver re-executes the prefix on a fresh
 //! mmapper and a freshly unmapped window, and logs only the last call). `d` = 0: the row
@@ -38,6 +41,8 @@ struct Win {
     base: usize,
     n: usize,
     prober: sys::Prober,
+    /// depth of the call being executed (for the watchdog's Hang row)
+    depth: std::cell::Cell<usize>,
 }
 
 fn addr(a: usize) -> Address {
@@ -81,7 +86,11 @@ impl Win {
         if op.kind == b'K' {
             for c in self.touched(op) {
                 if self.state(m, c) == 0 {
-                    assert!(sys::map_rw_noreplace(self.base + c * CB, CB), "driver mmap failed");
+                    if !sys::map_rw_noreplace(self.base + c * CB, CB) {
+                        // the chunk is recorded as Unmapped but something (in this window: only
+                        // the mmapper) has left a mapping there: reported, not judged
+                        return (vm, Err(format!("VMMAP_FAILED {}", c)));
+                    }
                     vm.push(c);
                 }
             }
@@ -89,6 +98,7 @@ impl Win {
         let start = addr(self.base + op.start);
         let (kind, len) = (op.kind, op.len);
         let mref = std::panic::AssertUnwindSafe(m);
+        crate::watch::begin(self.depth.get(), format!("{} start {} len {}", op.kind as char, op.start, op.len));
         let r = catch(move || match kind {
             b'Q' => mref.quarantine(start, len / PAGE),
             b'E' => mref.ensure_mapped(start, len / PAGE),
@@ -97,12 +107,17 @@ impl Win {
                 Ok(())
             }
         });
+        crate::watch::end();
         (vm, r)
     }
     fn row(&self, m: &VerifMmapper, d: usize, op: &Op, vm: &[usize],
            r: &Result<Result<(), String>, String>, stamp: u64) -> String {
         let kind = (op.kind as char).to_string();
         match r {
+            Err(msg) if msg.starts_with("VMMAP_FAILED") => Obj::new("VmMapFailed").int("d", d as i64)
+                .str("k", &kind).uint("start", op.start as u64).uint("len", op.len as u64)
+                .int("c", msg[13..].parse::<i64>().unwrap_or(-1))
+                .ints("st", (0..self.n).map(|c| self.state(m, c) as i64)).finish(),
             Err(msg) => Obj::new("Crash").int("d", d as i64).str("k", &kind)
                 .uint("start", op.start as u64).uint("len", op.len as u64).str("msg", msg).finish(),
             Ok(res) => {
@@ -110,9 +125,10 @@ impl Win {
                 let ima_a = self.samples();
                 let ima: Vec<i64> = ima_a.iter()
                     .map(|a| m.is_mapped_address(addr(self.base + a)) as i64).collect();
+                // probed: the chunks recorded as Mapped (nothing is required of the others)
                 let rw: Vec<i64> = (0..self.n).map(|c| {
                     let a = self.base + c * CB;
-                    (self.prober.probe_rw(a, stamp) && self.prober.probe_rw(a + CB - 8, !stamp)) as i64
+                    (st[c] == 2 && self.prober.probe_rw(a, stamp) && self.prober.probe_rw(a + CB - 8, !stamp)) as i64
                 }).collect();
                 Obj::new("Op").int("d", d as i64).str("k", &kind)
                     .uint("start", op.start as u64).uint("len", op.len as u64)
@@ -172,7 +188,8 @@ fn candidate_ops(n: usize, rng: &mut Rng, variants: usize) -> Vec<Op> {
 
 /// A call whose range overlaps exactly chunks a..=b. Variant 0: random unaligned ends; 1: both
 /// ends aligned; 2: minimal overlap (last page of a, first page of b); 3: start aligned only;
-/// 4: end aligned only.
+/// 4: end aligned only; 5: start aligned, one page into b (mark_as_mapped: the last byte of a to
+/// the first byte of b).
 fn shape(kind: u8, a: usize, b: usize, var: usize, rng: &mut Rng) -> Op {
     let pages_in_chunk = CB / PAGE;
     let (so, eo) = match var {
@@ -180,8 +197,18 @@ fn shape(kind: u8, a: usize, b: usize, var: usize, rng: &mut Rng) -> Op {
         1 => (0, pages_in_chunk),
         2 => (pages_in_chunk - 1, 1),
         3 => (0, rng.range(1, pages_in_chunk as u64 - 1) as usize),
-        _ => (rng.range(1, pages_in_chunk as u64 - 1) as usize, pages_in_chunk),
+        4 => (rng.range(1, pages_in_chunk as u64 - 1) as usize, pages_in_chunk),
+        _ => (0, 1),
     };
+    if kind == b'K' && var >= 5 {
+        // byte-granular minimal overlap: the last byte of chunk a .. the first byte of chunk b
+        return if a == b {
+            let at = if var == 5 { a * CB } else { a * CB + CB - 1 };
+            Op { kind, start: at, len: 1 }
+        } else {
+            Op { kind, start: (a + 1) * CB - 1, len: (b - a - 1) * CB + 2 }
+        };
+    }
     // start = so pages into chunk a; end = eo pages into chunk b (eo >= 1)
     let mut start = a * CB + so * PAGE;
     let mut end = b * CB + eo * PAGE;
@@ -235,6 +262,7 @@ impl Gen<'_> {
             if d == 1 && ci as u64 % self.shard.1 != self.shard.0 {
                 continue; // another shard explores this first call
             }
+            self.win.depth.set(d);
             let m = self.replay(hist);
             if !self.win.legal(&m, &op) {
                 continue;
@@ -268,17 +296,18 @@ pub fn run() {
     let nhist = arg_u64("hist", 100);
     let maxlen = arg_u64("maxlen", 12) as usize;
     let shard = crate::map32::parse_shard(&arg_or("shard", "0/1"));
-    let trace = Trace::new();
+    let trace: &'static Trace = &crate::watch::TRACE;
+    crate::watch::spawn(out.clone());
     sys::disable_thp();
     let mut rng = Rng::new(seed_from_env() ^ 0xC30);
     let mut total = 0u64;
     for pl in places.split(',') {
         let (base, slab) = place(n, pl);
-        let win = Win { base, n, prober: sys::Prober::new() };
+        let win = Win { base, n, prober: sys::Prober::new(), depth: std::cell::Cell::new(0) };
         match mode.as_str() {
             "tree" => {
                 trace.push(reset_row(&win, pl, slab));
-                let mut g = Gen { win: &win, trace: &trace, rng: rng.clone(), maxd, variants,
+                let mut g = Gen { win: &win, trace, rng: rng.clone(), maxd, variants,
                                   shard, rows: 0, stamp: 0x5EED };
                 g.dfs(&mut vec![]);
                 rng = g.rng.clone();
@@ -300,7 +329,7 @@ pub fn run() {
                         let span = if rng.chance(1, 4) { rng.range(0, n as u64 - 3) } else { rng.range(0, 2) } as usize;
                         let b = (a + span).min(n - 2);
                         let kind = *rng.pick(&[b'Q', b'E', b'K', b'Q']);
-                        let var = rng.below(5) as usize;
+                        let var = rng.below(6) as usize;
                         let op = shape(kind, a, b, var, &mut rng);
                         if !win.legal(&m, &op) {
                             continue;
